@@ -16,38 +16,46 @@ import PdfVerif.Lemmas.LayoutResult
 namespace PdfVerif.Props.C08
 open PdfVerif PdfVerif.Gen.Layout PdfVerif.Layout
 
+/- EVERY theorem below is stated for an arbitrary comparison `le` used by the heap of
+`group_textboxes` to choose the next entry (`Cmp = HEntry → HEntry → Bool`, no order axioms): the
+implementation's tuple order `(skip_isany, d, id(obj1), id(obj2))` is one instance for whatever
+memory addresses `id()` returns, the compiled model uses `HEntry.le` (creation numbers for `id()`).
+So the `id()`-dependent tie-break, which the correspondence check cannot pin down, does not matter
+for any statement of C08. -/
+variable {le : Cmp}
+
 /-! ### termination -/
 
 /-- **Termination.**  The only unbounded loop of the analysis (`while len(dists) > 0` in
 `group_textboxes`) ends by itself within `3·n² + 1` iterations for `n` text boxes: the model never
 runs out of fuel, for every input and every parameter setting (no hypothesis at all). -/
 theorem C08_terminates (p : LAParams) (pageBB : BB) (items : List Item) :
-    (analyze p pageBB items).flags.fuel = false := by
+    (analyze le p pageBB items).flags.fuel = false := by
   by_cases h : (items.filterMap Item.glyph?).isEmpty = true
   · simp [analyze, h]
-  · have s := stages p pageBB items (by simpa using h)
+  · have s := stages le p pageBB items (by simpa using h)
     rw [s.flags]
     unfold finalBoxes
     cases p.boxes_flow with
     | none => rfl
-    | some bf => exact groupTextboxes_fuel pageBB _
+    | some bf => exact groupTextboxes_fuel (le := le) pageBB _
 
 /-- The heap loop itself: whatever boxes it is given, `gtbFuel n = 3n²+1` iterations suffice. -/
 theorem C08_gtb_fuel_suffices (pageBB : BB) (boxes : List Box) :
-    (gtbLoop (gtbFuel boxes.length) (gtbInit pageBB boxes)).2 = true :=
+    (gtbLoop le (gtbFuel boxes.length) (gtbInit pageBB boxes)).2 = true :=
   gtbLoop_terminates _ _ (gtbInit_inv pageBB boxes) (gtbInit_phi pageBB boxes)
 
 /-- No `KeyError` from `plane.remove` and no dangling heap entry. -/
 theorem C08_no_internal_error (p : LAParams) (pageBB : BB) (items : List Item) :
-    (analyze p pageBB items).flags.err = false := by
+    (analyze le p pageBB items).flags.err = false := by
   by_cases h : (items.filterMap Item.glyph?).isEmpty = true
   · simp [analyze, h]
-  · have s := stages p pageBB items (by simpa using h)
+  · have s := stages le p pageBB items (by simpa using h)
     rw [s.flags]
     unfold finalBoxes
     cases p.boxes_flow with
     | none => rfl
-    | some bf => exact (groupTextboxes_spec pageBB _).2.2.1
+    | some bf => exact (groupTextboxes_spec (le := le) pageBB _).2.2.1
 
 /-! ### conservation -/
 
@@ -64,21 +72,21 @@ theorem C08_group_textlines_conserve (p : LAParams) (pageBB : BB) (hp : WfPage p
 
 /-- Stage 3: `group_textboxes` makes every box a leaf of exactly one returned group. -/
 theorem C08_group_textboxes_conserve (pageBB : BB) (boxes : List Box) :
-    ((groupTextboxes pageBB boxes).1.flatMap Node.leaves).Perm boxes :=
-  (groupTextboxes_spec pageBB boxes).1
+    ((groupTextboxes le pageBB boxes).1.flatMap Node.leaves).Perm boxes :=
+  (groupTextboxes_spec (le := le) pageBB boxes).1
 
 /-- **Conservation of glyphs.**  The multiset of glyphs found in the result (inside the lines of the
 text boxes, inside the empty lines, or untouched when nothing is analysed) is exactly the multiset
 of input glyphs: nothing lost, duplicated or altered. -/
 theorem C08_conserve_glyphs (p : LAParams) (pageBB : BB) (hp : WfPage pageBB) (items : List Item) :
-    ((analyze p pageBB items).children.flatMap Child.glyphs).Perm (items.filterMap Item.glyph?) := by
+    ((analyze le p pageBB items).children.flatMap Child.glyphs).Perm (items.filterMap Item.glyph?) := by
   by_cases h : (items.filterMap Item.glyph?).isEmpty = true
-  · have : (analyze p pageBB items).children = items.map Item.toChild := by simp [analyze, h]
+  · have : (analyze le p pageBB items).children = items.map Item.toChild := by simp [analyze, h]
     rw [this, toChild_glyphs]
-  · have s := stages p pageBB items (by simpa using h)
+  · have s := stages le p pageBB items (by simpa using h)
     have hspec := groupTextlines_spec p pageBB hp _ (nonEmpty_lines s)
     rw [← s.hboxes] at hspec
-    have hfin := (finalBoxes_spec p pageBB s.boxes hspec.2.1).1
+    have hfin := (finalBoxes_spec (le := le) p pageBB s.boxes hspec.2.1).1
     rw [s.children]
     simp only [List.flatMap_append, List.flatMap_map]
     have e1 : List.flatMap (fun a => Child.glyphs (Child.other a)) (items.filterMap Item.other?) = [] := by
@@ -86,10 +94,10 @@ theorem C08_conserve_glyphs (p : LAParams) (pageBB : BB) (hp : WfPage pageBB) (i
     have e2 : List.flatMap (fun a => Child.glyphs (Child.line a.analyze)) (s.lines.filter Line.isEmpty)
         = (s.lines.filter Line.isEmpty).flatMap Line.glyphs := by
       simp [Child.glyphs, glyphs_analyze]
-    have e3 : List.flatMap (fun a => Child.glyphs (Child.box a)) (finalBoxes p pageBB s.boxes).1
-        = (finalBoxes p pageBB s.boxes).1.flatMap Box.glyphs := rfl
+    have e3 : List.flatMap (fun a => Child.glyphs (Child.box a)) (finalBoxes le p pageBB s.boxes).1
+        = (finalBoxes le p pageBB s.boxes).1.flatMap Box.glyphs := rfl
     rw [e1, e2, e3, List.append_nil]
-    have h1 : ((finalBoxes p pageBB s.boxes).1.flatMap Box.glyphs).Perm
+    have h1 : ((finalBoxes le p pageBB s.boxes).1.flatMap Box.glyphs).Perm
         ((s.lines.filter (fun l => !l.isEmpty)).flatMap Line.glyphs) := by
       refine (map_strip_glyphs hfin).trans ((analyze_glyphs_flatMap s.boxes).trans ?_)
       have e : s.boxes.flatMap Box.glyphs = (s.boxes.flatMap (·.lines)).flatMap Line.glyphs := by
@@ -106,18 +114,18 @@ theorem C08_conserve_glyphs (p : LAParams) (pageBB : BB) (hp : WfPage pageBB) (i
 
 /-- **Conservation of the other items** (figures, shapes, images): kept exactly once, in order. -/
 theorem C08_conserve_others (p : LAParams) (pageBB : BB) (items : List Item) :
-    (analyze p pageBB items).children.filterMap Child.other? = items.filterMap Item.other? := by
+    (analyze le p pageBB items).children.filterMap Child.other? = items.filterMap Item.other? := by
   by_cases h : (items.filterMap Item.glyph?).isEmpty = true
-  · have : (analyze p pageBB items).children = items.map Item.toChild := by simp [analyze, h]
+  · have : (analyze le p pageBB items).children = items.map Item.toChild := by simp [analyze, h]
     rw [this, toChild_others]
-  · have s := stages p pageBB items (by simpa using h)
+  · have s := stages le p pageBB items (by simpa using h)
     rw [s.children]
     simp [List.filterMap_append, List.filterMap_map, Function.comp_def, Child.other?]
 
 /-- A figure is analysed like a page when `all_texts` is set and left untouched otherwise. -/
 theorem C08_figure (allTexts : Bool) (p : LAParams) (bb : BB) (items : List Item) :
-    analyzeFigure allTexts p bb items =
-      if allTexts then analyze p bb items
+    analyzeFigure le allTexts p bb items =
+      if allTexts then analyze le p bb items
       else { children := items.map Item.toChild, groups := none, flags := {} } := by
   unfold analyzeFigure; split <;> rfl
 
@@ -127,15 +135,15 @@ theorem C08_figure (allTexts : Bool) (p : LAParams) (bb : BB) (items : List Item
 holds glyphs of one orientation, has the tight hull of its glyphs as bounding box, and ends in
 exactly one line-break annotation; vertical lines only exist with `detect_vertical`. -/
 theorem C08_lines (p : LAParams) (pageBB : BB) (hp : WfPage pageBB) (items : List Item) :
-    ∀ l ∈ linesOf (analyze p pageBB items), LineOK p l := by
+    ∀ l ∈ linesOf (analyze le p pageBB items), LineOK p l := by
   by_cases h : (items.filterMap Item.glyph?).isEmpty = true
-  · have : (analyze p pageBB items).children = items.map Item.toChild := by simp [analyze, h]
+  · have : (analyze le p pageBB items).children = items.map Item.toChild := by simp [analyze, h]
     intro l hl
     exfalso
     simp only [linesOf, boxesOf, this, List.mem_append, List.mem_flatMap, List.mem_filterMap, List.mem_map] at hl
     rcases hl with ⟨b, ⟨c, ⟨it, _, rfl⟩, hc⟩, _⟩ | ⟨c, ⟨it, _, rfl⟩, hc⟩ <;> cases it <;>
       simp [Item.toChild, Child.box?, Child.line?] at hc
-  · have s := stages p pageBB items (by simpa using h)
+  · have s := stages le p pageBB items (by simpa using h)
     have hinv : ∀ l ∈ s.lines, LineInv p l := by rw [s.hlines]; exact groupObjects_inv p _
     have hspec := groupTextlines_spec p pageBB hp _ (nonEmpty_lines s)
     rw [← s.hboxes] at hspec
@@ -167,17 +175,17 @@ theorem C08_lines (p : LAParams) (pageBB : BB) (hp : WfPage pageBB) (items : Lis
 lines' boxes, and its lines are ordered top-to-bottom (by descending `y1`; a vertical box:
 right-to-left, by descending `x1`). -/
 theorem C08_boxes (p : LAParams) (pageBB : BB) (hp : WfPage pageBB) (items : List Item) :
-    ∀ b ∈ boxesOf (analyze p pageBB items),
+    ∀ b ∈ boxesOf (analyze le p pageBB items),
       b.lines ≠ [] ∧ IsUnion b.bb (b.lines.map (·.bb)) ∧
       b.lines.Pairwise (fun l₁ l₂ => if b.vertical then l₂.bb.x1 ≤ l₁.bb.x1 else l₂.bb.y1 ≤ l₁.bb.y1) := by
   by_cases h : (items.filterMap Item.glyph?).isEmpty = true
-  · have : (analyze p pageBB items).children = items.map Item.toChild := by simp [analyze, h]
+  · have : (analyze le p pageBB items).children = items.map Item.toChild := by simp [analyze, h]
     intro b hb
     exfalso
     simp only [boxesOf, this, List.mem_filterMap, List.mem_map] at hb
     obtain ⟨c, ⟨it, _, rfl⟩, hc⟩ := hb
     cases it <;> simp [Item.toChild, Child.box?] at hc
-  · have s := stages p pageBB items (by simpa using h)
+  · have s := stages le p pageBB items (by simpa using h)
     have hspec := groupTextlines_spec p pageBB hp _ (nonEmpty_lines s)
     rw [← s.hboxes] at hspec
     intro b' hb'
@@ -214,21 +222,21 @@ theorem C08_boxes (p : LAParams) (pageBB : BB) (hp : WfPage pageBB) (items : Lis
 /-- **Numbering.**  The text boxes are numbered `0, 1, …, n−1` in output order - with the hierarchy
 (`IndexAssigner`) and, after the fix of the pinned code, also when `boxes_flow` is `None`. -/
 theorem C08_index (p : LAParams) (pageBB : BB) (hp : WfPage pageBB) (items : List Item) :
-    (boxesOf (analyze p pageBB items)).map (·.index)
-      = (List.range' 0 (boxesOf (analyze p pageBB items)).length).map Int.ofNat := by
+    (boxesOf (analyze le p pageBB items)).map (·.index)
+      = (List.range' 0 (boxesOf (analyze le p pageBB items)).length).map Int.ofNat := by
   by_cases h : (items.filterMap Item.glyph?).isEmpty = true
-  · have : (analyze p pageBB items).children = items.map Item.toChild := by simp [analyze, h]
-    have hb : boxesOf (analyze p pageBB items) = [] := by
+  · have : (analyze le p pageBB items).children = items.map Item.toChild := by simp [analyze, h]
+    have hb : boxesOf (analyze le p pageBB items) = [] := by
       simp only [boxesOf, this, List.filterMap_map, List.filterMap_eq_nil_iff]
       intro it _
       cases it <;> rfl
     rw [hb]; rfl
-  · have s := stages p pageBB items (by simpa using h)
+  · have s := stages le p pageBB items (by simpa using h)
     have hspec := groupTextlines_spec p pageBB hp _ (nonEmpty_lines s)
     rw [← s.hboxes] at hspec
-    have hfin := finalBoxes_spec p pageBB s.boxes hspec.2.1
+    have hfin := finalBoxes_spec (le := le) p pageBB s.boxes hspec.2.1
     rw [boxesOf_stages s, hfin.2.1]
-    have : (finalBoxes p pageBB s.boxes).1.length = s.boxes.length := by
+    have : (finalBoxes le p pageBB s.boxes).1.length = s.boxes.length := by
       have := hfin.1.length_eq; simpa using this
     rw [this]
 
@@ -241,17 +249,17 @@ vertical (TBRL) class iff one of its members is vertical, and its members are in
 `boxes_flow = None` there is no hierarchy. -/
 theorem C08_hierarchy (p : LAParams) (pageBB : BB) (hp : WfPage pageBB) (items : List Item)
     (hne : (items.filterMap Item.glyph?).isEmpty = false) :
-    ((analyze p pageBB items).groups = none ↔ p.boxes_flow = none) ∧
-    ∀ gs, (analyze p pageBB items).groups = some gs →
-      gs.flatMap Node.leaves = boxesOf (analyze p pageBB items) ∧
+    ((analyze le p pageBB items).groups = none ↔ p.boxes_flow = none) ∧
+    ∀ gs, (analyze le p pageBB items).groups = some gs →
+      gs.flatMap Node.leaves = boxesOf (analyze le p pageBB items) ∧
       ∀ bf, p.boxes_flow = some bf → ∀ g ∈ gs, GroupOK bf g := by
-  have s := stages p pageBB items hne
+  have s := stages le p pageBB items hne
   have hspec := groupTextlines_spec p pageBB hp _ (nonEmpty_lines s)
   rw [← s.hboxes] at hspec
-  have hfin := finalBoxes_spec p pageBB s.boxes hspec.2.1
+  have hfin := finalBoxes_spec (le := le) p pageBB s.boxes hspec.2.1
   rw [s.groups, boxesOf_stages s]
   refine ⟨hfin.2.2.2.2.2, fun gs hgs => ⟨hfin.2.2.2.2.1 gs hgs, fun bf hbf g hg => ?_⟩⟩
-  exact finalBoxes_groupsOK p pageBB s.boxes bf hbf gs hgs g hg
+  exact finalBoxes_groupsOK (le := le) p pageBB s.boxes bf hbf gs hgs g hg
 
 /-! ### text -/
 
